@@ -168,7 +168,7 @@ pub fn run(r: &mut Report, ctx: &Ctx) {
                 s.acc = par_for(65536, 64, |idx, acc| {
                     let prev = (idx % 256) as u8;
                     let state = (idx / 256) as u8;
-                    let mut p = tlsh::verif::GeneratorParts { buckets: [1; 256], len: 100, checksum: [state, 0, 0], tail: [1, 2, 3, prev], tail_len: 4 };
+                    let p = tlsh::verif::GeneratorParts { buckets: [1; 256], len: 100, checksum: [state, 0, 0], tail: [1, 2, 3, prev], tail_len: 4 };
                     let base = VShort::gen_from_parts(&p);
                     for curr in 0..=255u8 {
                         let mut g = base.clone();
@@ -185,7 +185,6 @@ pub fn run(r: &mut Report, ctx: &Ctx) {
                             acc.outcomes.insert(c as u64);
                         }
                     }
-                    p.checksum = [state, 0, 0];
                     if idx % 4099 == 0 {
                         acc.sample(idx, || json!({"state": state, "prev": prev, "curr": "0..=255"}));
                     }
